@@ -61,7 +61,15 @@ def opIc (j : Json) : Json :=
   let sm := match getArr j "smoothing" with
     | [a, b] => (asNat a : Rat) / (asNat b : Rat)
     | _ => 1
-  let fr := Ic.compute hyp fuel pos (getBool j "distribute") sm words
+  let ratOf (x : Json) : Rat := match asList x with
+    | [a, b] => ((a.getInt?.toOption).getD 0 : Rat) / (asNat b : Rat)
+    | _ => 0
+  let fr : Ic.Freq :=
+    if has j "weights" then
+      let ws := (getArr j "weights").map ratOf
+      let tot := (j.getObjVal? "totals").toOption.getD (Json.mkObj [])
+      { node := fun i => ws.getD i 0, total := fun p => ratOf ((tot.getObjVal? p).toOption.getD Json.null) }
+    else Ic.compute hyp fuel pos (getBool j "distribute") sm words
   let nodes := List.range n
   jObj [
     ("node", jArr (nodes.map fun i => jRat (fr.node i))),
